@@ -952,7 +952,7 @@ func isDrainChan(v ssa.Value, depth int) bool {
 		switch t := o.(type) {
 		case *ssa.Call:
 			g := t.Call.StaticCallee()
-			if g == nil || len(g.Blocks) == 0 || o == v && depth > 2 {
+			if g == nil || len(g.Blocks) == 0 {
 				continue
 			}
 			all, n := true, 0
